@@ -951,7 +951,7 @@ func (w *World) observeSync(rc *Recorder, f func() error) {
 		}
 	}
 	in := L(I(int64(ps)), I(w.cfg.MaxSyncWALBytes), I(dbPages), U(pos), prevSx,
-		B(st.SyncedToWALEnd), B(werr == nil), SxBytes(wal), B(fdigP), U(fdig))
+		B(st.SyncedToWALEnd), B(werr == nil), SxBytes(wal), B(fdigP), U(fdig), I(st.LastSyncedWALOffset))
 	obs := L(I(0))
 	if first != nil {
 		pg := make(SxList, 0, len(first.pgnos))
